@@ -27,7 +27,7 @@ from .. import ingest as ING
 from . import c12
 
 DRIVERS = ["drv_style"]
-GENERATED = ["IngestSteps"]      # the rest is found through the imports of Props.C09 / Driver.Style
+GENERATED = ["IngestSteps", "PaintLine"]      # the rest is found through the imports of Props.C09 / Driver.Style
 
 
 _SIG_COUNT = {}
@@ -1110,6 +1110,239 @@ def raw_path_oracle(ctx, rep):
         check_stdout(rep, dict(kind="binary", input_kind="raw-path:" + context, args=a, env=env, cwd="scratch work dir with sub/dir",
                                stdin_b64=base64.b64encode(inp).decode()), out, tag="max-line-length:raw-path:" + context)
 
+# --------------------------------------------------------------------------- session 4 (T5): the painted line, built by the model
+
+PL_STYLES = ["red", "normal 52", "bold #aabbcc #102030", "reverse red", "normal", "white 124", "syntax 22", "ul 28",
+             "reverse green", "dim", "green", "normal 22", "bold ul italic 201 17"]
+PL_TEXTS = ["a", "ab", "hello world", "x y", "  ", "日本", "é", "12", "fn main() {", "→", "éx", "-", "+", "let x = 42;", " "]
+PL_STATES = ["m", "z", "p", "M", "Z", "P", "mw", "zw", "pw", "b", "u", "cm:" + hx("- "), "cz:" + hx("  "), "cp:" + hx("++"), "cm:" + hx(" -")]
+PL_CFG_STYLES = ["minus-style", "zero-style", "plus-style", "minus-non-emph-style", "plus-non-emph-style"]
+OSC8_FIELD = re.compile("^\x1b\\]8;;([^\x1b\x07]*)\x1b\\\\(.*)\x1b\\]8;;\x1b\\\\$", re.S)
+
+
+def pl_config(rng):
+    a = []
+    for o in PL_CFG_STYLES:
+        if rng.random() < 0.6:
+            a.append("--%s=%s" % (o, rng.choice(PL_STYLES)))
+    if rng.random() < 0.45:
+        a.append("--keep-plus-minus-markers")
+    w = rng.choice([None, "variable", "24", "40", "80"])
+    if w:
+        a.append("--width=" + w)
+    return a
+
+
+def pl_coalesce(sections):
+    """superimpose_style_sections when every syntax section carries the null syntect style: adjacent characters of equal
+    style are merged, the terminating newline of the last group is removed (paint.rs `coalesce`)."""
+    groups = []
+    for a, t in sections:
+        for ch in t:
+            if groups and groups[-1][0] == a:
+                groups[-1][1] += ch
+            else:
+                groups.append([a, ch])
+    if groups and groups[-1][1].endswith("\n"):
+        groups[-1][1] = groups[-1][1][:-1]
+    return [(a, t) for a, t in groups]
+
+
+def pl_clusters(gr, t):
+    return ";".join("%s,%d" % gw for gw in gr.cache[t]) if t else "-"
+
+
+def pl_piece(gr, t):
+    m = OSC8_FIELD.match(t)
+    if m:
+        return "L:%s:%s" % (hx(m.group(1)), pl_clusters(gr, m.group(2)))
+    return "P:" + pl_clusters(gr, t)
+
+
+def pl_piece_texts(t):
+    m = OSC8_FIELD.match(t)
+    return [m.group(2)] if m else [t]
+
+
+def pl_model_request(gr, cfg_styles, keep, ln, ext, avail, case, gutter):
+    state, hom, empty, bg, sections, syntax_empty = case
+    sup = pl_coalesce(sections)
+    f = ["paint.line"] + cfg_styles + ["-:-:00000000", str(keep), str(ln), str(ext), str(avail), state, str(hom), empty, bg,
+                                       "1" if syntax_empty else "0", str(len(gutter))]
+    for a, t in gutter:
+        f += [a, pl_piece(gr, t)]
+    f.append(str(len(sup)))
+    for a, t in sup:
+        f += [a, pl_clusters(gr, t)]
+    f.append(str(len(sections)))
+    for a, t in sections:
+        f += [a, hx(t)]
+    return " ".join(f)
+
+
+def pl_state_class(state):
+    return state.split(":")[0]
+
+
+def pl_oracle(rep, line, sig, replay):
+    """The property on one painted line (texts are ESC-free): back in the default state at its end."""
+    if not self_contained(line):
+        _viol(rep, "paint_lines:line-not-self-contained:" + sig,
+              "a line written by Painter::paint_lines from ESC-free texts does not end in the terminal's default state",
+              dict(replay, final=T.decode(line).final.describe()))
+
+
+def corr_paint_lines(ctx, rep, mdl, gr):
+    """Hook `style.paint_lines` (one line through the real Painter::paint_lines) vs `paint.line` of drv_style
+    (`PaintLine.paintedLine`). The op is new in session 4: when the hooked tree does not have it yet the correspondence is
+    skipped (counted) and `corr_paint_binary` alone ties the model."""
+    rng = ctx.rng
+    probe = ctx.hook().ask(["cfg", "style.paint_lines m 0 - no 0 0 0"])[-1]
+    if not probe.startswith("ok "):
+        rep.count("paint_lines:hook-op-missing(skipped)")
+        return False
+    configs = [pl_config(rng) + (["--line-numbers"] + (["--hyperlinks"] if rng.random() < 0.4 else []) if rng.random() < 0.45 else [])
+               for _ in range(ctx.n(14, 80))]
+
+    def one(a):
+        lrng = __import__("random").Random(hash(tuple(a)) & 0xffffffff ^ ctx.seed)
+        ln = 1 if "--line-numbers" in a else 0
+        cases = []
+        for _ in range(ctx.n(16, 150)):
+            k = lrng.choice([0, 1, 1, 2, 3, 4])
+            secs = []
+            for j in range(k):
+                st = secs[-1][0] if secs and lrng.random() < 0.25 else rand_ansi(lrng, plain_p=0.2, need_bg=lrng.random() < 0.5)
+                secs.append([st, lrng.choice(PL_TEXTS) if lrng.random() < 0.9 else ""])
+            if secs and lrng.random() < 0.9:
+                secs[-1][1] += "\n"
+            if secs and lrng.random() < 0.1:
+                secs = [[secs[0][0], "\n"]]
+            secs = [(x, y) for x, y in secs]
+            cases.append((lrng.choice(PL_STATES), lrng.randint(0, 1), "-" if lrng.random() < 0.4 else rand_ansi(lrng, plain_p=0.1),
+                          lrng.choice(["no", "ansi", "ansi", "spaces", "spaces"]), secs, k == 0))
+        lines = ["cfg " + " ".join(hx(x) for x in a)] + ["style.config_style " + o for o in PL_CFG_STYLES]
+        for state, hom, empty, bg, secs, se in cases:
+            text = "".join(t for _, t in secs)
+            syn = "0" if se else "1 " + hx(text)
+            lines.append("style.paint_lines %s %d %s %s %d %s %d%s" % (state, hom, empty, bg, ln, syn, len(secs),
+                                                                       "".join(" %s %s" % (x, hx(y)) for x, y in secs)))
+        return cases, ctx.hook().ask(lines, sticky=[0])
+    results = parallel_map(one, configs)
+    texts, parsed = set(["-", "+", " "]), []
+    for a, (cases, res) in zip(configs, results):
+        styles = [r.split(" ")[1] if r.startswith("ok ") else None for r in res[1:6]]
+        for c, r in zip(cases, res[6:]):
+            gutter, out, fields = [], None, None
+            if r.startswith("ok "):
+                f = r.split(" ")
+                out, fields = unhx(f[1]), f[2:6]
+                g = f[7:]
+                gutter = [(g[2 * i], unhx(g[2 * i + 1]).decode("utf-8", "replace")) for i in range(int(f[6]))]
+            for _, t in pl_coalesce(c[4]):
+                texts.add(t)
+            for _, t in gutter:
+                texts.update(pl_piece_texts(t))
+            parsed.append((a, styles, c, r, out, fields, gutter))
+    gr.ensure([t for t in texts if t])
+    reqs = []
+    for a, styles, c, r, out, fields, gutter in parsed:
+        if fields is None or None in styles:
+            reqs.append(None)
+            continue
+        avail, ext, keep, ln = fields
+        reqs.append(pl_model_request(gr, styles, keep, ln, ext, avail, c, gutter))
+    model = iter(mdl.ask([q for q in reqs if q]) if mdl else [])
+    for (a, styles, c, r, out, fields, gutter), q in zip(parsed, reqs):
+        state, hom, empty, bg, secs, se = c
+        sig = "%s:bg=%s" % (pl_state_class(state), bg)
+        replay = dict(kind="paint-lines-hook", args=a, state=state, homolog=hom, empty_style=empty, bg=bg,
+                      sections=[list(x) for x in secs], syntax_empty=se, impl=r[:400])
+        rep.case(key=("paint_lines", tuple(a), state, hom, empty, bg, tuple(secs)), nontrivial=len(secs) >= 1, sample=replay)
+        rep.count("paint_lines:state=" + pl_state_class(state))
+        rep.count("paint_lines:" + ("PANIC" if r.startswith("PANIC") else "gutter" if gutter else "no-gutter"))
+        if out is not None:
+            if not out.endswith(b"\n") or b"\n" in out[:-1]:
+                _viol(rep, "paint_lines:not-one-line:" + sig, "paint_lines pushed something else than one line and its newline", replay)
+            else:
+                pl_oracle(rep, out[:-1], sig, replay)
+        if mdl is None:
+            continue
+        if q is None:
+            if r.startswith("PANIC") and None not in styles:
+                # the Config fields come with the ok answer; a panic is compared under the defaults of the request
+                m = mdl.ask([pl_model_request(gr, styles, 0, 0, 1, 80, c, [])])[0] if all(t in gr.cache or not t for _, t in pl_coalesce(secs)) else "?"
+                rep.corr_case("style.paint_lines", m.startswith("PANIC"), dict(replay, model=m))
+            continue
+        m = next(model)
+        agree = m.startswith("ok ") and unhx(m.split(" ")[1]) + b"\n" == out
+        rep.corr_case("style.paint_lines", agree, dict(replay, request=q, model=m[:400]))
+    return True
+
+
+PL_WORDS = ["fn", "main()", "{", "}", "let", "x", "=", "42;", "日本語", "é", "→", "return", "a+b", "-1", "# note"]
+
+
+def corr_paint_binary(ctx, rep, mdl, gr):
+    """The model's whole painted line vs the real binary: hunks of removed-only / added-only lines and context lines (no edit
+    inference, no syntax highlighting: the sections of a line are known - one section in the line's style), explicit styles,
+    with and without --keep-plus-minus-markers, --width fixed / variable. Styles and the available width are read from the
+    Config through hook ops that exist (`style.config_style`, `wrap.panels`)."""
+    rng = ctx.rng
+    runs = []
+    for _ in range(ctx.n(24, 300)):
+        a = pl_config(rng) + ["--syntax-theme=none"]
+        kind = rng.choice("mp")
+        body = []
+        for _ in range(rng.randint(1, 3)):
+            body.append(("z", " ".join(rng.choice(PL_WORDS) for _ in range(rng.randint(1, 5)))))
+        for _ in range(rng.randint(1, 4)):
+            t = " ".join(rng.choice(PL_WORDS) for _ in range(rng.randint(1, 6))) if rng.random() < 0.9 or kind == "p" else ""
+            body.append((kind, t))
+        if rng.random() < 0.5:
+            body.append(("z", " ".join(rng.choice(PL_WORDS) for _ in range(rng.randint(1, 5)))))
+        nm = sum(1 for k, _ in body if k in "mz")
+        npl = sum(1 for k, _ in body if k in "pz")
+        doc = "diff --git a/f.txt b/f.txt\nindex 1111111..2222222 100644\n--- a/f.txt\n+++ b/f.txt\n@@ -1,%d +1,%d @@\n" % (nm, npl)
+        doc += "".join({"m": "-", "p": "+", "z": " "}[k] + t + "\n" for k, t in body)
+        runs.append((a, body, doc.encode()))
+
+    def one(run):
+        a, body, doc = run
+        rc, out, err = ctx.run_delta(a, doc, timeout=20)
+        res = ctx.hook().ask(["cfg " + " ".join(hx(x) for x in a)] + ["style.config_style " + o for o in PL_CFG_STYLES] +
+                             ["wrap.panels " + " ".join(hx(x) for x in a)], sticky=[0])
+        return rc, out, res
+    results = parallel_map(one, runs)
+    gr.ensure([t for _, body, _ in runs for _, t in body if t] + ["-", "+", " "])
+    reqs, metas = [], []
+    for (a, body, doc), (rc, out, res) in zip(runs, results):
+        styles = [r.split(" ")[1] if r.startswith("ok ") else None for r in res[1:6]]
+        if rc != 0 or None in styles or not res[6].startswith("ok "):
+            rep.count("paint_binary:skipped(rc=%s)" % rc)
+            continue
+        avail = res[6].split(" ")[3]
+        keep = 1 if "--keep-plus-minus-markers" in a else 0
+        ext = 0 if "--width=variable" in a else 1
+        got = out.split(b"\n")
+        got = got[:-1] if got and got[-1] == b"" else got
+        got = got[-len(body):]
+        sty = dict(m=styles[0], z=styles[1], p=styles[2])
+        for (k, t), g in zip(body, got):
+            case = (k, 0, "-", "spaces" if k == "z" else "ansi", [(sty[k], t + "\n")], False)
+            reqs.append(pl_model_request(gr, styles, keep, 0, ext, avail, case, []))
+            metas.append((a, k, t, g, doc))
+    model = mdl.ask(reqs) if mdl else [None] * len(reqs)
+    import base64
+    for (a, k, t, g, doc), q, m in zip(metas, reqs, model):
+        replay = dict(kind="binary", input_kind="paint-line:" + k, args=a, stdin_b64=base64.b64encode(doc).decode(), line=t)
+        rep.case(key=("paint_binary", tuple(a), k, t), nontrivial=True, sample=dict(replay, got=g.decode("utf-8", "replace")[:300]))
+        rep.count("paint_binary:line=" + k)
+        pl_oracle(rep, g, "binary:%s" % k, replay)
+        if m is not None:
+            agree = m.startswith("ok ") and unhx(m.split(" ")[1]) == g
+            rep.corr_case("paint_lines/binary", agree, dict(args=a, kind=k, line=t, impl=hx(g.decode("utf-8", "replace")), model=m[:400], request=q))
+
 
 def run(ctx, rep):
     rep.rule = ("hook level: random lists of (style, text) / random lines built from text and escape-sequence items "
@@ -1131,6 +1364,8 @@ def run(ctx, rep):
     o2 = corr_fill(ctx, rep, mdl, o1)
     o3 = corr_truncate(ctx, rep, mdl, gr)
     corr_pad(ctx, rep, mdl, gr)
+    corr_paint_lines(ctx, rep, mdl, gr)
+    corr_paint_binary(ctx, rep, mdl, gr)
     blobs = binary_oracle(ctx, rep)
     decoration_oracle(ctx, rep)
     corr_cr(ctx, rep, mdl)
@@ -1152,6 +1387,19 @@ def replay(ctx, rep, obj):
         dec, bad = check_stdout(rep, dict(case), out)
         rep.case(key=("replay",), nontrivial=True)
         print("rows=%d bad=%d" % (len(dec.rows), bad))
+    elif case.get("kind") == "paint-lines-hook":
+        secs = [tuple(x) for x in case["sections"]]
+        text = "".join(t for _, t in secs)
+        syn = "0" if case.get("syntax_empty") else "1 " + hx(text)
+        ln = 1 if "--line-numbers" in case["args"] else 0
+        q = "style.paint_lines %s %d %s %s %d %s %d%s" % (case["state"], case["homolog"], case["empty_style"], case["bg"], ln, syn,
+                                                          len(secs), "".join(" %s %s" % (x, hx(y)) for x, y in secs))
+        r = ctx.hook().ask(["cfg " + " ".join(hx(x) for x in case["args"]), q], sticky=[0])[-1]
+        print("replay style.paint_lines -> %s" % r[:300])
+        rep.case(key=("replay",), nontrivial=True)
+        if r.startswith("ok "):
+            out = unhx(r.split(" ")[1])
+            pl_oracle(rep, out[:-1] if out.endswith(b"\n") else out, "%s:bg=%s" % (pl_state_class(case["state"]), case["bg"]), dict(case))
     elif case.get("kind") == "ingest-hook":
         mdl = ctx.model("drv_style") if ctx.drivers_ok else None
         items = [tuple(x) for x in case["items"]]
